@@ -131,9 +131,9 @@ func patternsUpTo(hosts, segs []string, depth int) []string {
 	return out
 }
 
-// exhaustiveCases: every set of 1 or 2 distinct (method, pattern) declarations over the bounded
-// alphabet, all of one remedy type for odd pair indices (exercises the builder's conflict rejection
-// and the dispatcher slice) and of distinct types for even ones.
+// exhaustive part: every set of 1 or 2 distinct (method, pattern) declarations over the bounded
+// alphabet; every pair twice: with one remedy type (exercises the builder's conflict rejection and
+// the dispatcher slice) and with two different types.
 type exhSpace struct {
 	eps   []ep
 	bound string
@@ -150,11 +150,11 @@ func exhaustiveSpace(thorough bool) exhSpace {
 			s.eps = append(s.eps, ep{Method: m, URL: p})
 		}
 	}
-	s.bound = fmt.Sprintf("all sets of <=2 distinct declarations over hosts %v, segments %v, path depth <=2, optional trailing *, methods %v (%d declarations), both orders, all derived probes", hosts, segs, ms, len(s.eps))
+	s.bound = fmt.Sprintf("all sets of <=2 distinct declarations over hosts %v, segments %v, path depth <=2, optional trailing *, methods %v (%d declarations), each pair with equal and with different remedy types, both orders, all derived probes", hosts, segs, ms, len(s.eps))
 	return s
 }
 
-func (s exhSpace) count() int { m := len(s.eps); return m + m*(m-1)/2 }
+func (s exhSpace) count() int { m := len(s.eps); return m + m*(m-1) }
 
 func (s exhSpace) at(i int) caseT {
 	m := len(s.eps)
@@ -162,6 +162,8 @@ func (s exhSpace) at(i int) caseT {
 		return caseT{Part: "exhaustive", Eps: []ep{s.eps[i]}}
 	}
 	i -= m
+	sameType := i%2 == 1 // every pair once with two different remedy types, once with one type
+	i /= 2
 	// pair index -> (a,b), a<b
 	a := 0
 	for i >= m-1-a {
@@ -170,10 +172,10 @@ func (s exhSpace) at(i int) caseT {
 	}
 	b := a + 1 + i
 	c := caseT{Part: "exhaustive", Eps: []ep{s.eps[a], s.eps[b]}}
-	if (a+b)%2 == 0 {
-		c.Eps[1].Kind = 1
-	} else {
+	if sameType {
 		c.E2E = true
+	} else {
+		c.Eps[1].Kind = 1
 	}
 	return c
 }
@@ -620,6 +622,15 @@ func judge(ds []decl, pr probe, o outcome, pure bool) []finding {
 			}
 			fs = append(fs, finding{sig: "C13/normalized-url/not-a-declared-pattern/" + k,
 				detail: fmt.Sprintf("%s %s: normalized URL %q is not among the declared patterns (selected %q)", pr.Method, pr.URL, o.Norm, e.name())})
+			// no declared pattern was reported: the parameter positions are those of the selected pattern
+			if own && !paramsOK(e.pat, pr.URL, o.Params) {
+				pk := "differ-from-request-segments"
+				if k == "wildcard-fallback-reported-as-walked-path" {
+					pk = "parameters-of-an-abandoned-descent-reported-with-wildcard-fallback"
+				}
+				fs = append(fs, finding{sig: "C13/path-params/" + pk,
+					detail: fmt.Sprintf("%s %s: selected %q (normalized %q) but path parameters %v; the request's segments at that pattern's parameter positions are %v", pr.Method, pr.URL, e.name(), o.Norm, o.Params, e.pat.PathParams(pr.URL))})
+			}
 		} else if normPat.Match(pr.URL) == sim.No {
 			fs = append(fs, finding{sig: fmt.Sprintf("C13/normalized-url/does-not-match-request/%s", class(normPat)),
 				detail: fmt.Sprintf("%s %s: normalized URL %q is declared but does not match the request (selected %q)", pr.Method, pr.URL, o.Norm, e.name())})
